@@ -373,6 +373,9 @@ def main():
 
     try:
         exe0 = build_harness(pid, prop, dconfig)
+        if args.replay and not os.path.isfile(args.replay):
+            print("CHECK-NOT-RUN property=%s: replay file %s does not exist" % (pid, args.replay))
+            return 2
         if args.replay:
             rcfg = prop.get("mode_config", {}).get(args.mode or case_mode(args.replay), prop.get("replay_config", dconfig))
             st, out = replay_case(build_harness(pid, prop, rcfg), prop, args.replay, kf_all, args.mode)
